@@ -613,6 +613,7 @@ impl BigUint {
 			match &mut self {
 				Large(v) => {
 					while rhs >= 64 {
+						test_int(int)?;
 						v.insert(0, 0);
 						rhs -= 64;
 					}
